@@ -1,6 +1,7 @@
 """Runs the quick checks against every seeded change (on scratch copies of /repo) and writes
 seeded/<id>/meta.json and seeded/RESULTS.md.
 usage: /venv/bin/python tools_seeded_matrix.py [budget_s] [ids...]
+       MATRIX_JOBS=4 MATRIX_WORKERS=4 ...   four changes at a time, four worker processes per check
        OTHER_BUDGET=6 ...   budget for the checks of the properties the change was *not* written against (0: not run)
 Each check stops handing out runs once it has a violation (--stop-at-first), then shrinks and verifies the replay."""
 import json, os, subprocess, sys, shutil, time
@@ -31,7 +32,8 @@ def run(sid, budget):
             if b <= 0:
                 continue
             c = subprocess.run([sys.executable, "-m", "verif.check", p, "--tier", "quick", "--budget", str(b), "--no-evidence", "--stop-at-first"],
-                               cwd=ROOT, env={**os.environ, "VERIF_REPO": target, "PYTHONDONTWRITEBYTECODE": "1"}, capture_output=True, text=True)
+                               cwd=ROOT, env={**os.environ, "VERIF_REPO": target, "PYTHONDONTWRITEBYTECODE": "1",
+                                              "VERIF_WORKERS": os.environ.get("MATRIX_WORKERS", "0")}, capture_output=True, text=True)
             clauses = sorted({ln.split("clause=")[1].split()[0] for ln in c.stdout.splitlines() if ln.startswith("# clause=")})
             res[p] = {"exit": c.returncode, "caught": c.returncode == 1 and "VIOLATION property=" in c.stdout, "clauses": clauses,
                       "wall_s": round(time.time() - t0, 1), "budget_s": b}
@@ -63,10 +65,12 @@ def run(sid, budget):
 def main():
     budget = float(sys.argv[1]) if len(sys.argv) > 1 else 20
     ids = sys.argv[2:] or sorted(x for x in os.listdir(os.path.join(ROOT, "seeded")) if os.path.isdir(os.path.join(ROOT, "seeded", x)))
-    rows = []
-    for sid in ids:
-        m = run(sid, budget)
-        print(sid, m["confirmed"], m["caught_by"], flush=True)
+    jobs = int(os.environ.get("MATRIX_JOBS", "1"))  # changes processed concurrently (MATRIX_WORKERS workers per check)
+    import concurrent.futures as cf
+    with cf.ThreadPoolExecutor(max_workers=jobs) as ex:
+        for sid, m in zip(ids, ex.map(lambda x: run(x, budget), ids)):
+            print(sid, m["confirmed"]["repo_test_suite_with_change"], m["confirmed"]["demo_exit_with_change"],
+                  m["confirmed"]["demo_exit_without_change"], m["caught_by"], flush=True)
     lines = ["# Seeded changes vs checks", "", "| id | breaks | needs | repo suite | demo with/without | caught by (quick tier) |", "|---|---|---|---|---|---|"]
     for sid in sorted(x for x in os.listdir(os.path.join(ROOT, "seeded")) if os.path.isfile(os.path.join(ROOT, "seeded", x, "meta.json"))):
         m = json.load(open(os.path.join(ROOT, "seeded", sid, "meta.json")))
